@@ -17,7 +17,7 @@ RULE = {"C08": "generated robot definitions: 1-4 components (own and inherited a
                "falsy value, None, preset on the class, set in __init__, private, generic alias, other component}; robotInit() "
                "runs for real.  Non-trivial = >=2 components and >=1 of {prefixed, falsy, cross-component, error}; distinct = "
                "hash of the definition."}
-REQUIRED = {"C08": {"rel:plain": 200, "rel:prefixed": 100, "rel:both": 50, "rel:falsy": 100, "rel:subclass": 50, "rel:bool-for-int": 30,
+REQUIRED = {"C08": {"falsy-component-or-mode": 100, "callable-robot-attribute": 50, "rel:plain": 200, "rel:prefixed": 100, "rel:both": 50, "rel:falsy": 100, "rel:subclass": 50, "rel:bool-for-int": 30,
                     "rel:generic-alias": 30, "rel:preset-class": 50, "rel:preset-init": 50, "rel:private": 50, "rel:component-earlier": 50,
                     "rel:component-later": 50, "rel:absent": 50, "rel:wrong-type": 50, "rel:wrong-type-prefixed": 20, "rel:none": 20, "rel:ctor-param": 50,
                     "rel:inherited-annotation": 50, "rel:mode-target": 50, "rel:one-class-two-components": 50, "rel:one-statemachine-class-two-components": 20, "fms-attached-at-startup": 100,
@@ -35,6 +35,9 @@ def _types():
         T0 = type("T0", (), {})
         T1 = type("T1", (T0,), {})
         T2 = type("T2", (), {})
+        import functools
+        CallT = type("CallT", (), {"__call__": lambda self: 1})       # an object that happens to be callable
+        TYPES.update({"CallT": CallT, "partial": functools.partial, "type": type})
         TYPES.update({"T0": T0, "T1": T1, "T2": T2, "int": int, "str": str, "float": float, "list": list, "tuple": tuple,
                       "bool": bool, "list[int]": list[int], "tuple[int, int]": tuple[int, int], "dict[str, int]": dict[str, int]})
     return TYPES
@@ -60,6 +63,11 @@ def make_value(desc):
         return tuple(desc[1])
     if k == "dict":
         return dict(desc[1])
+    if k == "partial":
+        import functools
+        return functools.partial(int, desc[1])
+    if k == "cls":
+        return T[desc[1]]        # the class object itself is the value
     raise ValueError(desc)
 
 
@@ -69,10 +77,12 @@ GOOD = {  # annotation -> value descriptors that satisfy it
     "float": [("lit", 1.5), ("lit", 0.0)], "list": [("list", [1]), ("list", [])], "tuple": [("tuple", [1, 2]), ("tuple", [])],
     "bool": [("lit", True), ("lit", False)], "list[int]": [("list", [1, 2]), ("list", [])], "tuple[int, int]": [("tuple", [1, 2])],
     "dict[str, int]": [("dict", {"a": 1}), ("dict", {})],
+    "CallT": [("inst", "CallT")], "partial": [("partial", "7")], "type": [("cls", "T0"), ("cls", "T2")],
 }
 BAD = {"T0": [("inst", "T2"), ("lit", 3)], "T1": [("inst", "T0"), ("lit", "s")], "T2": [("inst", "T0")], "int": [("lit", "5"), ("lit", 1.0)],
        "str": [("lit", 5)], "float": [("lit", 1), ("lit", "1.0")], "list": [("tuple", [1])], "tuple": [("list", [1])], "bool": [("lit", 1)],
-       "list[int]": [("tuple", [1])], "tuple[int, int]": [("list", [1, 2])], "dict[str, int]": [("list", [])]}
+       "list[int]": [("tuple", [1])], "tuple[int, int]": [("list", [1, 2])], "dict[str, int]": [("list", [])],
+       "CallT": [("inst", "T0")], "partial": [("lit", 3)], "type": [("inst", "T0")]}
 FALSY = {"int": ("lit", 0), "str": ("lit", ""), "float": ("lit", 0.0), "list": ("list", []), "tuple": ("tuple", []), "bool": ("lit", False),
          "list[int]": ("list", []), "dict[str, int]": ("dict", {})}
 
@@ -170,6 +180,8 @@ def gen_case(rng, uid):
         if rng.random() < 0.3:
             for _ in range(rng.choice([1, 2])):
                 c["ctor"].append(gen_attr(cn, is_ctor=True, others=cnames[:i]))    # only earlier-declared components
+        if rng.random() < 0.15:
+            c["truth"] = rng.choice(["len0", "boolFalse"])       # a component object that is falsy (an empty queue)
         comps[cn] = c
     # a component never requests the same name twice
     for c in comps.values():
@@ -199,7 +211,8 @@ def gen_case(rng, uid):
     modes = []
     for j in range(rng.choice([0, 0, 1, 2])):
         mn = f"md{j}{uid}"
-        modes.append({"name": mn, "attrs": [gen_attr(mn, others=cnames) for _ in range(rng.choice([1, 2]))]})
+        modes.append({"name": mn, "attrs": [gen_attr(mn, others=cnames) for _ in range(rng.choice([1, 2]))],
+                      "truth": rng.choice([None, None, None, None, "len0", "boolFalse"])})
     order = list(cnames)
     rng.shuffle(order)
     # constructor parameters referring to components need those to be declared earlier: enforce on the final order
@@ -245,6 +258,10 @@ def write_modes(case, root):
                     f.write(f"        self.{a['name']} = pi.make_value({tuple(a['preset'])!r})\n")
             f.write("        pi.STATE['modes'][self.MODE_NAME] = self\n")
             f.write("    def setup(self):\n        pi.on_setup(self, self.MODE_NAME)\n")
+            if m.get("truth") == "len0":
+                f.write("    def __len__(self):\n        return 0\n")
+            elif m.get("truth") == "boolFalse":
+                f.write("    def __bool__(self):\n        return False\n")
             f.write("    def on_enable(self):\n        pass\n    def on_iteration(self, tm):\n        pass\n    def on_disable(self):\n        pass\n")
 
 
@@ -334,6 +351,12 @@ def run_case(acc, case):
         body["__init__"] = __init__
         body["execute"] = lambda self: None
         body["setup"] = lambda self, _cn=cn: on_setup(self, _cn)
+        if c.get("truth") == "len0":
+            body["__len__"] = lambda self: 0
+            acc.ev("falsy-component-or-mode")
+        elif c.get("truth") == "boolFalse":
+            body["__bool__"] = lambda self: False
+            acc.ev("falsy-component-or-mode")
         bases = ()
         if base_body or base_ann:
             base_body["__annotations__"] = base_ann
@@ -545,6 +568,8 @@ def _count_rel(acc, a, cn, order):
     if rel == "component":
         rel = "component-earlier" if order.index(a["name"]) < order.index(cn) else "component-later"
     acc.ev("rel:" + rel)
+    if a["ann"] in ("CallT", "partial", "type"):
+        acc.ev("callable-robot-attribute")
 
 
 def resolve_attr(owner, a, robot_objs, order, comp_classes):
